@@ -7,7 +7,9 @@ MC_AttrTypes == [A |-> [Id |-> "unique_id", N |-> "integer", S |-> "string", F |
                  P |-> [Id |-> "unique_id", N |-> "integer"],
                  M |-> [One_Id |-> "unique_id", Other_Id |-> "unique_id", W |-> "integer"]]
 MC_ParamTypes == [x |-> "integer", flag |-> "boolean", s |-> "string", cnt |-> "Count", vec |-> "integer"]
-MC_RetTypes == ("fact" :> "integer" @@ "tally" :> "Count" @@ "mix" :> "integer" @@ "A::cop" :> "integer" @@ "EE1::br" :> "integer" @@ "A.iop" :> "integer")
+MC_RetTypes == ("fact" :> "integer" @@ "tally" :> "Count" @@ "mix" :> "integer" @@ "A::cop" :> "integer" @@ "EE1::br" :> "integer" @@ "A.iop" :> "integer"
+               @@ "Req::op1" :> "integer" @@ "Prov::op1" :> "integer" @@ "Req::op0" :> "void" @@ "Prov::op0" :> "void"
+               @@ "Req::sig1" :> "signal" @@ "Prov::sig1" :> "signal" @@ "Req::sig0" :> "signal" @@ "Prov::sig0" :> "signal")
 MC_ConstTypes == ("LIMIT" :> "integer" @@ "GREETING" :> "string" @@ "ENABLED" :> "boolean" @@ "FLOOR" :> "integer")
 MC_NavTarget == <<>>
 ====
